@@ -68,3 +68,12 @@ claim("C15",
       note="Estimator protocol and clone_with_fitted_parameters are assumed contracts. Known finding: copy_estimator=True rejects models whose fitted state has "
            "no value equality (trees, KNN) in assert_estimator_equal.",
       technique="deductive verification: Trace clauses on the symbolic call trace + row-wise output postconditions, z3")
+claim("C18",
+      text="Proof: r2_score_comparable makes exactly one r2_score call on (tr(y), inv_tr(p)) with weights/multioutput passed on and returns its value, 'log'/'exp' "
+           "are the NumPy functions, refusals (both missing: ValueError, non-callable: TypeError) - all 24 (tr, inv_tr) kind pairs; non_linear_correlations "
+           "(array branch, any n>=2, any number of columns incl. one, any draws>=1): three nested loop invariants give square matrices, every entry in [0,1], "
+           "0<=min<=max<=1 and count*min<=sum<=count*max hence min<=mean<=max, input never written, the given model never fitted. "
+           "Bounded: DataFrame branch, DataFrame vs array under one seed (incl. integer tables), labels kept.",
+      note="Assumed: scale returns a new array, train_test_split returns two non-empty new arrays (n>=2), var>=0, sqrt maps [0,1] to [0,1], corrcoef returns a "
+           "scalar for one variable. Unit diagonal is not applicable (depends on the learner). DataFrame branch is bounded only.",
+      technique="deductive verification: nested loop invariants (nonlinear count*min<=sum<=count*max), Trace clauses, z3")
